@@ -90,6 +90,8 @@ def gen_project(rnd):
     elif body_shape == "local-collides":
         lib += [f"{ind}n = {expr}", f"{ind}m = n + 1", f"{ind}return n * m"]
     lib.append("")
+    if host == "method":
+        lib += ["class Holder:", "    def __init__(self):", "        self.box = Box(20)", ""]
     # variables
     vrhs = rnd.choice(["q", "bump(q)", "q + K", "(q + K)", "K"])
     if vrhs == "q + K":
@@ -109,16 +111,21 @@ def gen_project(rnd):
             L.append("import lib as L")
             tgt, box, vc = "L.target", "L.Box", "L.v_const"
         elif style == "from":
-            L.append("from lib import " + ("target" if host == "function" else "Box") + ", v_const")
+            L.append("from lib import " + ("target" if host == "function" else "Box, Holder") + ", v_const")
             tgt, box, vc = "target", "Box", "v_const"
         else:
-            L.append("from lib import " + ("target as tg" if host == "function" else "Box as Bx") + ", v_const as vc")
+            L.append("from lib import " + ("target as tg" if host == "function" else "Box as Bx, Holder") + ", v_const as vc")
             tgt, box, vc = "tg", "Bx", "vc"
         feats.add("import:" + style)
         L += ["", "n = 4", "m = 6", ""]
         if host == "method":
             L.append(f"box = {box}(10)")
             tgt = "box.target"
+            if rnd.random() < 0.4:
+                # the receiver is itself an attribute access: holder.box.target(...)
+                L.append(f"holder = {box.replace('Box', 'Holder').replace('Bx', 'Holder')}()")
+                tgt = "holder.box.target"
+                feats.add("dotted-receiver")
         for k in range(rnd.randint(3, 6)):
             args = []
             kw_started = False
